@@ -380,6 +380,35 @@ func c17EntryLengthInvariant(r *core.Report) {
 			}
 			cl, ok := core.Unparen(as.Rhs[0]).(*ast.CompositeLit)
 			if !ok {
+				// re-storing an entry that was read from the cache (e.g. to refresh its timestamp): it must have been read
+				// with a presence flag, for this very key, and the flag must be known true here - otherwise an entry that
+				// was evicted in the meantime is re-created with the zero value
+				n++
+				k := fmt.Sprintf("%s#cache-store@%d-existing-entry-only", f.Key, n)
+				eo := core.ObjOf(info, as.Rhs[0])
+				okPresent := false
+				if eo != nil {
+					var okObj types.Object
+					ast.Inspect(f.Body, func(m ast.Node) bool {
+						as2, isA := m.(*ast.AssignStmt)
+						if !isA || len(as2.Lhs) != 2 || len(as2.Rhs) != 1 || core.ObjOf(info, as2.Lhs[0]) != eo {
+							return true
+						}
+						if ix2, isIx := core.Unparen(as2.Rhs[0]).(*ast.IndexExpr); isIx && core.ExprStr(ix2.X) == core.ExprStr(ix.X) && core.ExprStr(ix2.Index) == core.ExprStr(ix.Index) {
+							okObj = core.ObjOf(info, as2.Lhs[1])
+						}
+						return true
+					})
+					if okObj != nil {
+						for _, fc := range g.FactsAt(node) {
+							if id, isId := core.Unparen(fc.Expr).(*ast.Ident); isId && fc.Tag == nil && fc.Truth && info.Uses[id] == okObj {
+								okPresent = true
+							}
+						}
+					}
+				}
+				r.Check(okPresent, rule, k, pos(r, as), "an entry is written back only when it was found under this key in the same lock section",
+					"an entry is stored under "+core.ExprStr(ix.Index)+" without knowing that the key is (still) present: after an eviction this creates an entry with no bytes, and reads of that range fail or answer with the wrong length")
 				continue
 			}
 			var valExpr ast.Expr
